@@ -36,9 +36,28 @@ pub struct Ctx {
     pub wall_cap: Duration,
 }
 
+/// resident set size of this process in GiB (0 if /proc is unavailable)
+pub fn rss_gib() -> f64 {
+    if let Ok(s) = std::fs::read_to_string("/proc/self/statm") {
+        if let Some(pages) = s.split_whitespace().nth(1).and_then(|x| x.parse::<f64>().ok()) {
+            return pages * 4096.0 / (1024.0 * 1024.0 * 1024.0);
+        }
+    }
+    0.0
+}
+
+/// memory cap of the whole check in GiB (a cap is reported, never a verdict)
+pub fn rss_cap_gib() -> f64 {
+    std::env::var("VERIF_RSS_CAP_GIB").ok().and_then(|s| s.parse().ok()).unwrap_or(36.0)
+}
+
 impl Ctx {
     pub fn over_time(&self) -> bool {
         self.start.elapsed() > self.wall_cap
+    }
+    /// true when the process is above its memory cap: long sweeps stop and report the cap
+    pub fn over_mem(&self) -> bool {
+        rss_gib() > rss_cap_gib()
     }
     /// rotation of a list by the seed: the *set* is unchanged, only the visiting order
     pub fn rotate<T>(&self, v: &mut Vec<T>) {
@@ -215,6 +234,7 @@ where
     let mut results: Vec<Option<Report>> = (0..n).map(|_| None).collect();
     let results_ptr = std::sync::Mutex::new(&mut results);
     let capped = AtomicBool::new(false);
+    let running = AtomicUsize::new(0);
     std::thread::scope(|s| {
         for _ in 0..ctx.threads.max(1).min(n.max(1)) {
             s.spawn(|| loop {
@@ -226,6 +246,12 @@ where
                     capped.store(true, Ordering::SeqCst);
                     break;
                 }
+                // memory throttle: while the process is above 60% of its cap and other items
+                // are in flight, wait for them to finish and free their builders
+                while rss_gib() > 0.6 * rss_cap_gib() && running.load(Ordering::SeqCst) > 0 && !ctx.over_time() {
+                    std::thread::sleep(std::time::Duration::from_millis(200));
+                }
+                running.fetch_add(1, Ordering::SeqCst);
                 let r = match std::panic::catch_unwind(std::panic::AssertUnwindSafe(|| f(i, &items[i])))
                 {
                     Ok(r) => r,
@@ -237,6 +263,7 @@ where
                         r
                     }
                 };
+                running.fetch_sub(1, Ordering::SeqCst);
                 results_ptr.lock().unwrap()[i] = Some(r);
             });
         }
